@@ -12,7 +12,8 @@ implementation of a listed family computes the datasheet function.  This file co
   `linesDrivenB`), the node-indexed consistent labellings `ConsN` of C10 exist and are unique: they are the result of the
   `SimOps` program (`consN_exec`, `consN_unique`, from `C01.all_circuits_solution` via `solves_iff_consistent`).  Hence, for an
   instance with all input pins connected (`pinsFitB`) of a cell whose table row describes that netlist (`describesB`: op rows =
-  `genOps`, ports, input slots, captured lines, no state element), `ImplMatches` ⇔ "every connected output pin `k` carries
+  `genOps` rows, port list = `io_nodes` with names, driven flags, (P)PI slots / captured lines, no state element, distinct
+  ports — i.e. the row IS `dump_techlib.describe` of the netlist), `ImplMatches` ⇔ "every connected output pin `k` carries
   `fs[k]` of the values on the input pins" (`implMatches_iff_datasheet`), `fs` = `DS.datasheet` of the row's family and pins,
   which C19's kernel evaluation over ALL rows of the tables (`Tech.gates_all`, `Tech.adders`) identifies with the program.
 * **`resolve_datasheet_sem` (this file):** for every well-formed circuit, every library `lib` and result `h'` of
